@@ -2,7 +2,7 @@
    The independent reader: ogg_load = strict page walk (ogg_parse), reassembly of the packets of the first stream whose
    first packet is the codec's identification header, decoding of its SECOND packet (ogg_f_decode: codec prefix,
    Fam_flac.vc_parse written from the Vorbis comment layout, framing bit for Vorbis, only zero bytes behind the comment
-   unless an Opus tail is flagged for preservation, for OggFLAC a VORBIS_COMMENT block header whose 24-bit length equals
+   -- for Opus per RFC 7845 5.2: a tail whose first byte is odd is data to preserve, anything else is padding --, for OggFLAC a VORBIS_COMMENT block header whose 24-bit length equals
    the payload).
    (a) packet level, unconditional: whatever packet _inject builds decodes to exactly the tags that were set.
    (b) file level: ogg_load of the saved file returns them, for every file whose tagged stream is laid out as the codec
